@@ -78,6 +78,9 @@ func engineDirsource(ctx *engineCtx) {
 		perm := g.r.Perm(len(namePool))
 		var entries []dirEntry
 		allBad := g.coin(0.1)
+		sameSnapshot := g.coin(0.2) // every good file of the directory carries the same bytes (an unchanged feed polled repeatedly)
+		var lastGood []byte
+		var lastTs int64
 		for i := 0; i < cnt && i < len(perm); i++ {
 			e := dirEntry{name: namePool[perm[i]], kind: kinds[g.r.Intn(len(kinds))]}
 			if allBad && e.kind == "good" {
@@ -86,6 +89,12 @@ func engineDirsource(ctx *engineCtx) {
 			e.ts = int64(1700000000 + 100*it + i)
 			p := filepath.Join(dir, e.name)
 			good := g.nyctFeed(uint64(e.ts))
+			if (e.kind == "good" || e.kind == "vanish") && lastGood != nil && (sameSnapshot || g.coin(0.15)) {
+				good, e.ts = lastGood, lastTs // byte-identical to an earlier file: still a file of its own
+			}
+			if e.kind == "good" || e.kind == "vanish" {
+				lastGood, lastTs = good, e.ts
+			}
 			switch e.kind {
 			case "good", "vanish":
 				e.content = good
